@@ -17,7 +17,9 @@ def run_verus(rs, seed=0, rlimit=None, extra=(), threads=None, timeout=1800, fun
         cmd += ['--num-threads', str(threads)]
     if module and not funcs:
         cmd += ['--verify-module', module]
-    if funcs:
+    if funcs and module:
+        cmd += ['--verify-only-module', module]
+    elif funcs:
         cmd += ['--verify-root']
         for f in funcs:
             cmd += ['--verify-function', f]
